@@ -3,9 +3,9 @@ CONSTANTS
   BOUNDARY = TRUE
   RULE = "precise"
   REPAIR = FALSE
-  NApps = 2
-  MaxRoutes = 1
-  MaxDepth = 1
+  NApps = 3
+  MaxRoutes = 2
+  MaxDepth = 2
   MSETS = "full"
   PSIB = TRUE
   NPOL = 1
